@@ -9,6 +9,7 @@ Theorem C09_sleep_exact : forall acc len rate,
   rate_ok rate -> 0 <= len <= 4294967296 -> - two63 / 2 <= acc <= 0 ->
   bw_sleep_add acc len rate = acc + dur len rate.
 Proof. exact bw_sleep_add_exact. Qed.
+Print Assumptions C09_sleep_exact.
 
 (** a chunk of at most 100*rate bytes is forwarded whole, unchanged, at
     pick-up + max(0, credit + floor(len*10^6/rate)): never earlier than its budget allows, and no
@@ -21,6 +22,7 @@ Theorem C09_small_chunk : forall rate ps at_ acc (c : chunk) fuel,
   let r := stage_emit (TBandwidth rate) ps at_ fuel None s1 in
   fst (fst r) = [(at_ + Z.max 0 sl, cdata c)] /\ final_st r = Idle (Z.min 0 sl) None.
 Proof. exact bw_small_chunk. Qed.
+Print Assumptions C09_small_chunk.
 
 (** data above 100 ms worth of budget is released in instalments of exactly 100*rate bytes every
     100 ms *)
@@ -33,6 +35,7 @@ Theorem C09_instalment : forall rate now (p : chunk) sl,
          (KBwLoop (mkChunk (slice_from (cdata p) (rate * 100)) (cts p)) (sl - bw_instalment_ns)) /\
   zlen (slice_to (cdata p) (rate * 100)) = rate * 100.
 Proof. exact bw_instalment. Qed.
+Print Assumptions C09_instalment.
 
 (** the rate bound, arithmetic core (partial: the composition with the stage run is by the
     correspondence, not by a theorem): under the credit scheme the k-th emission is no earlier than
@@ -40,13 +43,16 @@ Proof. exact bw_instalment. Qed.
 Theorem C09_rate_bound_partial : forall steps a p, a <= 0 -> sched_ok a p steps -> steps <> [] ->
   p + a + sumD steps <= last_emit p steps.
 Proof. exact rate_arith. Qed.
+Print Assumptions C09_rate_bound_partial.
 
 Theorem C09_truncation_term : forall len rate, 0 < rate -> 0 <= len ->
   len * 1000000 - rate < dur len rate * rate <= len * 1000000.
 Proof. exact dur_bound. Qed.
+Print Assumptions C09_truncation_term.
 
 Theorem C09_order_content : forall rate, preserving (TBandwidth rate).
 Proof. intros; exact I. Qed.
+Print Assumptions C09_order_content.
 
 (** ---- sequences of chunks (each at most 100 ms worth of budget, i.e. not split into instalments)
     through the stage with a ready receiver: the stage's run is the closed form [bw_sched] - chunk k,
@@ -59,6 +65,7 @@ Theorem C09_sequence_closed_form : forall rate, rate_ok rate -> forall fuel, (1 
   feed (TBandwidth rate) fuel ps (Idle acc None) (arrivals arr) =
   (fst (bw_sched rate acc arr), Idle (snd (bw_sched rate acc arr)) None, ps).
 Proof. exact bw_feed. Qed.
+Print Assumptions C09_sequence_closed_form.
 
 (** THE RATE BOUND for such sequences: whenever each chunk is picked up no earlier than the previous
     one left (the stage is sequential), by the time chunk k leaves at most rate bytes per millisecond
@@ -69,3 +76,4 @@ Theorem C09_rate_bound : forall rate, 0 < rate -> forall arr acc base,
   forall k e d, nth_error (fst (bw_sched rate acc arr)) k = Some (e, d) ->
   1000000 * sumlen (firstn (S k) arr) < rate * (e - base - acc) + rate * Z.of_nat (S k).
 Proof. exact bw_rate_bound. Qed.
+Print Assumptions C09_rate_bound.
